@@ -23,9 +23,10 @@ if [ -f $SRC/demo_test.go ]; then
   cp $SRC/demo_test.go $WT/zz_seed_demo_test.go
   NAMES=$(grep -o "^func Test[A-Za-z0-9_]*" $WT/zz_seed_demo_test.go | sed 's/func //' | paste -sd'|')
   if go test -vet=off -count=1 -run "^($NAMES)\$" . >>$LOG 2>&1; then DEMO_WITH=pass; else DEMO_WITH=fail; fi
-  git stash -q -- $(git diff --name-only HEAD) 2>/dev/null
+  # (no git stash: refs/stash is shared by all worktrees of /repo)
+  git apply -R /tmp/seed-$ID-applied.diff
   if go test -vet=off -count=1 -run "^($NAMES)\$" . >>$LOG 2>&1; then DEMO_WITHOUT=pass; else DEMO_WITHOUT=fail; fi
-  git stash pop -q 2>/dev/null
+  git apply /tmp/seed-$ID-applied.diff
   rm -f $WT/zz_seed_demo_test.go
 fi
 echo "confirm: build=$BUILD tests=$TESTS demo_with_change=$DEMO_WITH demo_without_change=$DEMO_WITHOUT"
